@@ -214,6 +214,14 @@ func (g *Graph) split(b *Block, c ast.Expr, t, f *Block) {
 		}
 	}
 	b.Nodes = append(b.Nodes, c)
+	if x, ok := c.(*ast.BinaryExpr); ok && x.Op == token.NEQ {
+		// normal form: `a != b` labels its edges as `a == b` with the senses swapped, so that rules
+		// written for one spelling of a test see the other one as well
+		eq := &ast.BinaryExpr{X: x.X, OpPos: x.OpPos, Op: token.EQL, Y: x.Y}
+		g.link(b, t, eq, nil, false)
+		g.link(b, f, eq, nil, true)
+		return
+	}
 	g.link(b, t, c, nil, true)
 	g.link(b, f, c, nil, false)
 }
